@@ -1,6 +1,14 @@
 package props
 
-import "dsim/core"
+import (
+	"fmt"
+	"os"
+
+	"dsim/core"
+	"dsim/simdisk"
+
+	"github.com/diskfs/go-diskfs/filesystem"
+)
 
 // C03 — Nothing is written outside the byte range a component was given.
 //
@@ -40,7 +48,9 @@ func (c03) Budget(tier string) (int, int, int) {
 	return 50, 1 << 30, 120
 }
 
-var c03Workloads = []string{"fat", "fat", "fat", "table", "partio", "ext4", "iso", "squashfs"}
+// (the runner hands run i to worker i mod 8 or i mod 16: with 16 entries every worker keeps to one or two
+// workloads and a slow one cannot starve a fast one of its share of a time-bound batch)
+var c03Workloads = []string{"fat", "fat", "fat", "table", "partio", "ext4", "iso", "squashfs", "fat", "fat", "ext4", "fatshrunk", "partio", "ext4", "iso", "squashfs"}
 
 func (c03) Gen(r *core.Rng, tier string, idx int) *core.Trace {
 	wl := c03Workloads[idx%len(c03Workloads)]
@@ -67,6 +77,15 @@ func (c03) Gen(r *core.Rng, tier string, idx int) *core.Trace {
 		t.Cfg["comp"] = core.PickOf[int64](r, 0, 1, 3, 4)
 	case "partio":
 		t = c13{}.Gen(r, tier, idx)
+	case "fatshrunk":
+		// a FAT volume opened with a smaller range than its boot sector describes (an image copied into a smaller
+		// partition): the range given is what counts
+		t = &core.Trace{Cfg: map[string]int64{}, CfgS: map[string]string{}}
+		t.Cfg["ftype"] = core.PickOf[int64](r, 12, 16, 32)
+		t.Cfg["size"] = map[int64]int64{12: r.Range(2, 6) << 20, 16: r.Range(6, 24) << 20, 32: r.Range(4, 40) << 20}[t.Cfg["ftype"]]
+		t.Cfg["start"] = core.PickOf[int64](r, 0, 1<<20, 5<<30)
+		t.Cfg["given"] = r.Range(40, 95) // percent of the volume's size that the second open is given
+		t.Cfg["per"] = core.PickOf[int64](r, 4096, 65536, 1<<20)
 	}
 	t.CfgS["wl"] = wl
 	return t
@@ -85,9 +104,88 @@ func (c03) Exec(t *core.Trace) *core.Result {
 		res = execIsoBuild(t, "C03")
 	case "squashfs":
 		res = execSquashBuild(t, "C03")
+	case "fatshrunk":
+		res = execFatShrunk(t)
 	default:
 		res, _ = execFatHistory(t, "C03", false)
 	}
 	res.Probe("wl-" + t.Sg("wl"))
+	return res
+}
+
+// execFatShrunk creates a FAT volume, opens it again with a smaller range than it was made with and writes files
+// until it refuses: no write may leave the smaller range.
+func execFatShrunk(t *core.Trace) *core.Result {
+	res := core.NewResult()
+	res.Evals = 1
+	ft := int(t.I("ftype"))
+	if ft != 12 && ft != 16 && ft != 32 {
+		ft = 32
+	}
+	size, start := t.I("size"), t.I("start")
+	if size < 1<<20 || size > 64<<20 {
+		size = 8 << 20
+	}
+	if start < 0 {
+		start = 0
+	}
+	pct := t.I("given")
+	if pct < 10 || pct > 99 {
+		pct = 75
+	}
+	given := size * pct / 100 / 4096 * 4096
+	d := simdisk.New(start + size + 1<<20)
+	d.FillNoise(start+given, size-given+1<<20, t.Seed^0x5151)
+	if _, err := fatCreate(d, ft, size, start, 512, "SHRUNK", false); err != nil {
+		res.Sample = "create refused: " + err.Error()
+		return res
+	}
+	d.FillNoise(start+given, size-given+1<<20, t.Seed^0x5151) // (what lies behind the range given is somebody else's)
+	fail := func(clause, trig, locus, detail string) *core.Result {
+		res.V = &core.Violation{Clause: "C03." + clause, Trigger: fmt.Sprintf("fat%d:%s", ft, trig), Locus: locus, Detail: detail, OpIndex: -1}
+		return res
+	}
+	var fs fatFS
+	var err error
+	if pk, pv, loc, _ := core.Guard(func() { fs, err = fatRead(d, ft, given, start, 512) }); pk {
+		return fail("panic", "open(smaller-range):"+core.PanicClass(pv), loc, fmt.Sprint(pv))
+	}
+	if err != nil {
+		res.Sample = "open with the smaller range refused: " + err.Error()
+		res.Probe("shrunk-open-refused")
+		return res
+	}
+	res.Probe("opened-with-smaller-range")
+	d.SetGuard(simdisk.Extent{Off: start, Len: given})
+	per := t.I("per")
+	if per < 512 || per > 4<<20 {
+		per = 65536
+	}
+	data := core.PatternBytes(t.Seed, per)
+	for i := 0; i < 3000; i++ {
+		var werr error
+		if pk, pv, loc, _ := core.Guard(func() {
+			var f filesystem.File
+			f, werr = fs.OpenFile(fmt.Sprintf("/F%05d.DAT", i), os.O_CREATE|os.O_RDWR)
+			if werr == nil {
+				_, werr = f.Write(data)
+				f.Close()
+			}
+		}); pk {
+			if d.GuardHit == nil {
+				return fail("panic", "fill(smaller-range):"+core.PanicClass(pv), loc, fmt.Sprint(pv))
+			}
+		}
+		res.Steps++
+		if g := d.GuardHit; g != nil {
+			return fail("fs-write-outside-range", "fill(smaller-range)", g.Locus, fmt.Sprintf("FAT%d volume made with %d bytes was opened with the range [%d,+%d) and wrote [%d,+%d)", ft, size, start, given, g.Off, g.Len))
+		}
+		if werr != nil {
+			res.Probe("fill-reached-refusal")
+			break
+		}
+	}
+	res.DevOps = d.St.Writes
+	res.Hashes = append(res.Hashes, core.Mix(uint64(ft), uint64(size), uint64(pct)))
 	return res
 }
